@@ -108,13 +108,44 @@ func genC10(t *rapid.T) c10Case {
 	cs := c10Case{Vesting: rapid.IntRange(0, 3).Draw(t, "vesting") == 3}
 	kinds := []string{"transfer", "transferFrom", "approve", "burn", "burnFrom", "transfer", "transferFrom", "approve", "send"}
 	amts := []string{"0", "1", "max", "bal", "bal+1", "alw", "alw+1", "alw-1", "half", "half"}
+	// (owner, spender) pairs approved earlier in the sequence: later spends are steered towards them so that
+	// approve -> spend -> re-spend histories (exact, partial and excess amounts) are common instead of accidental
+	type pair struct{ owner, spender int }
+	var approved []pair
 	for n := rapid.IntRange(1, 12).Draw(t, "nsteps"); n > 0; n-- {
 		s := c10Step{Kind: rapid.SampledFrom(kinds).Draw(t, "kind"), Token: rapid.IntRange(0, 1).Draw(t, "token"), Sender: rapid.IntRange(0, 3).Draw(t, "sender"),
 			Via: rapid.IntRange(0, 3).Draw(t, "via") == 3, A: rapid.IntRange(0, c10PoolSize-1).Draw(t, "a"), B: rapid.IntRange(0, c10PoolSize-1).Draw(t, "b")}
+		if len(approved) > 0 && rapid.Bool().Draw(t, "spendnow") {
+			s.Kind = rapid.SampledFrom([]string{"transferFrom", "transferFrom", "burnFrom"}).Draw(t, "spendkind")
+		}
 		if rapid.IntRange(0, 4).Draw(t, "amtk") == 4 {
 			s.Amt = fmt.Sprintf("%d", rapid.Uint64Range(2, 100000).Draw(t, "amtv"))
 		} else {
 			s.Amt = rapid.SampledFrom(amts).Draw(t, "amt")
+		}
+		switch s.Kind {
+		case "approve":
+			owner := s.Sender
+			if s.Via {
+				owner = 4
+			}
+			if s.B <= 4 {
+				approved = append(approved, pair{owner, s.B})
+			}
+			if s.Amt == "0" && rapid.Bool().Draw(t, "nonzeroapprove") {
+				s.Amt = fmt.Sprintf("%d", rapid.Uint64Range(1, 5000).Draw(t, "approveamt"))
+			}
+		case "transferFrom", "burnFrom":
+			if len(approved) > 0 && rapid.IntRange(0, 3).Draw(t, "usepair") != 0 {
+				p := approved[rapid.IntRange(0, len(approved)-1).Draw(t, "pair")]
+				s.A = p.owner
+				if p.spender == 4 {
+					s.Via = true
+				} else {
+					s.Sender, s.Via = p.spender, false
+				}
+				s.Amt = rapid.SampledFrom([]string{"alw", "alw", "alw", "alw-1", "alw+1", "half", "1", "0", s.Amt}).Draw(t, "spendamt")
+			}
 		}
 		cs.Steps = append(cs.Steps, s)
 	}
